@@ -30,6 +30,13 @@ def actResOf (e : Py.Err) : ActRes :=
   else if e.cls = "ValueError" then .valueError
   else .structError
 
+/-- the model's result of `session.write` / `send` refused by `_check_writable` with error `e`
+    (class names as written in session.py; all three are WebSocketErrors) -/
+def wsResOf (e : Py.Err) : ActRes :=
+  if e.cls = "WebSocketClosed" then .wsClosed
+  else if e.cls = "WebSocketClosing" then .wsClosing
+  else .wsUnavailable
+
 /-- the model's exception for an error raised in frame.py / frame_parser.py:
     `PayloadTooLarge` is a subclass of `ProtocolError`, both are `Exn.protocol` with the text -/
 def exnOf (e : Py.Err) : Exn :=
@@ -85,8 +92,8 @@ macro "gen_branches" : tactic => `(tactic| ((try dsimp only); repeat' split))
 macro "gen_close" : tactic => `(tactic| first
   | omega
   | rfl
-  | (simp_all [actResOf, exnOf, exceptOf]; done)
-  | (simp_all [actResOf, exnOf, exceptOf]; subst_vars; simp [actResOf, exnOf, exceptOf]; done)
-  | (simp_all [actResOf, exnOf, exceptOf]; omega))
+  | (simp_all [actResOf, exnOf, exceptOf, wsResOf]; done)
+  | (simp_all [actResOf, exnOf, exceptOf, wsResOf]; subst_vars; simp [actResOf, exnOf, exceptOf, wsResOf]; done)
+  | (simp_all [actResOf, exnOf, exceptOf, wsResOf]; omega))
 
 end Lomond.GenTie
